@@ -470,7 +470,7 @@ func TestChainedAcceleratedScans(t *testing.T) {
 	rec := ev.New(t, prop, "chained-accelerated-scans", "rapid state sequences: random tree + ignore list (Mutagen or Docker syntax), then 3-10 steps of 0-4 edits (create/delete/write/replace-inode/chmod/touch/rename) each reporting every created, deleted or modified path (+ random extra paths); after each step Scan(baseline, recheck, caches) is compared with a cold scan (content, flags, counters, digest cache) and feeds the next step; non-trivial: a step rechecked a strict subset and reused a directory object from the baseline")
 	base := t.TempDir()
 	i := 0
-	ev.Check(t, rec, 250, 8000, func(rt *rapid.T) {
+	ev.Check(t, rec, 500, 8000, func(rt *rapid.T) {
 		c := drawCase(rt)
 		i++
 		dir := filepath.Join(base, fmt.Sprintf("c%d", i))
